@@ -654,3 +654,4 @@ MANIFEST["text"] += ' An explicit raise reachable from the schema store with no 
 MANIFEST["text"] += " R8 also: cells are enumerated row-major over the index arrays — np.meshgrid without indexing='ij' exchanges the first two axes (recogniser self-tested on an embedded positive example each run)."
 MANIFEST["text"] += " R4 also: _FieldView.__init__ assigns nothing derived from vector._data (a field handle is a view, not a snapshot of the cells)."
 MANIFEST["text"] += ' R11: no derived per-instance cache survives a schema change (every method that re-binds or edits the field list resets any attribute filled with entries computed from it). R3 is a coupled rule: a validator that can return its argument is a violation only together with an in-place edit of the schema lists.'
+MANIFEST["text"] += ' R1 treats the inference pre-screen and the fully validating data setter as layered defences (either on every path suffices); an early continue counts as weakening.'
